@@ -38,7 +38,7 @@ def pad16 (s : String) : String := String.ofList (List.replicate (16 - s.length)
 /-- `LEN:FNV[:HEX]` -/
 def outDigest (bs : Bytes) : String :=
   let base := s!"{bs.length}:{pad16 (natHex (fnv1a bs))}"
-  if bs.length ≤ 64 then base ++ ":" ++ (if bs.isEmpty then "" else toHex bs) else base
+  if bs.length ≤ 64 then base ++ ":" ++ (if bs.isEmpty then "-" else toHex bs) else base
 
 def parseNat (s : String) : Option Nat :=
   if s.startsWith "0x" then
